@@ -1,6 +1,6 @@
 """C07 Every program terminates within a fixed instruction budget."""
 import astq
-from rules import decode, jit
+from rules import decode, jit, jitcross, rv64
 
 LEVEL = 'other'
 TECHNIQUE = 'known-bits abstract interpretation of the branch constant for all 16 shifts + decoder path enumeration (write sets vs last-writer marks) + sibling agreement of the JIT back-ends'
@@ -21,3 +21,9 @@ def run(ctx, R):
     decode.rule_tab_opc(ctx, R, F)
     jit.rule_lw_sib(ctx, R, 'x86', F)
     jit.rule_cbr_x86(ctx, R, F)
+    jit.rule_lw_sib(ctx, R, 'a64', F)
+    jit.rule_lw_sib(ctx, R, 'rv64', F)
+    jitcross.rule_cbr_a64(ctx, R, F)
+    jitcross.rule_lwpos_a64(ctx, R)
+    rv64.rule_cbr(ctx, R, F)
+    rv64.rule_branch_forms(ctx, R)
